@@ -6,7 +6,7 @@ from props import _update as U
 
 META = {
     "level": "proof",
-    "technique": "Coq theorems on an effect-script model (temp file + final rename vs. in-place append) with a failure injected at the k-th processed item; the real `pna` binary is run with failures injected at every position (FIFO / socket / device / unreadable file as k-th input, corrupted k-th entry, wrong password for the k-th solid block)",
+    "technique": "Coq theorems on an effect-script model (temp file + final rename vs. in-place append) with a failure injected at the k-th processed item; the real `pna` binary is run with failures injected at every position (FIFO / socket / device / unreadable file as k-th input, corrupted k-th entry, wrong password for the k-th solid block) Failing strip / delete runs are also given an --output that names an existing file (the archive under another spelling, a bystander archive): every file that existed before must be unchanged.",
     "level_text": "For every command that writes to an existing archive path the model's script touches the target path only in its last effect (rewriting commands) or only after every item has been built (the repaired append); this is proved for all archives and all failure positions (Coq, closed under the global context), together with the shape of the result when nothing fails. The model is tied to the real binary by runs with a failure injected at the k-th processed item; bytes before/after, exit status, `pna list`, TMPDIR and the archive's directory are observed, the model must predict the verdict (SAME / VALID_SUPERSET / BROKEN, temp file left or not), and the property (byte-identical or valid superset, nothing new next to the archive, no panic, no hang) is evaluated directly as an oracle.",
     "level_note": "Outside the model: a failure of the final rename itself (cross-device copy interrupted, disk full) and process crashes; the property quantifies over failures of processed items. A file vanishing between walk and read is emulated by inputs that cannot be read or archived (FIFO, socket, /dev/null, /proc/self/mem), since the checks run as root and timing a removal is not reproducible. Trusted: Coq kernel + vm_compute; extraction + OCaml driver (sample re-evaluated in the kernel); props/_update.py; harness `dump`.",
 }
